@@ -1,0 +1,26 @@
+//  Copyright (c) 2026 Couchbase, Inc.
+//
+// Licensed under the Apache License, Version 2.0 (the "License");
+// you may not use this file except in compliance with the License.
+// You may obtain a copy of the License at
+//
+// 		http://www.apache.org/licenses/LICENSE-2.0
+//
+// Unless required by applicable law or agreed to in writing, software
+// distributed under the License is distributed on an "AS IS" BASIS,
+// WITHOUT WARRANTIES OR CONDITIONS OF ANY KIND, either express or implied.
+// See the License for the specific language governing permissions and
+// limitations under the License.
+
+//go:build !verif
+
+// Package simhook holds the seams a deterministic simulator uses to take
+// over scheduling decisions. Without the "verif" build tag every function
+// in here is an empty, inlinable no-op and Enabled is a false constant.
+package simhook
+
+// Enabled reports whether the simulation hooks are compiled in.
+const Enabled = false
+
+// Yield marks a named step; a no-op in normal builds.
+func Yield(role, point string) {}
